@@ -330,7 +330,7 @@ def load_findings(pid):
         if not line or line.startswith("#"):
             continue
         m = re.match(r"(finding|fixed):\s+property=(\S+)\s+(.*)", line)
-        if not m or m.group(2) != pid:
+        if not m or m.group(2) != pid[:3]:      # C04A / C04B share C04's findings
             continue
         kind, _, rest = m.groups()
         key = None
